@@ -6,6 +6,7 @@ require github.com/evolbioinfo/goalign v0.0.0
 
 require (
 	github.com/armon/go-radix v1.0.0 // indirect
+	github.com/ulikunitz/xz v0.5.10 // indirect
 	gonum.org/v1/gonum v0.9.3 // indirect
 )
 
